@@ -159,7 +159,7 @@ def intended_tables(rep, shapes):
     with open(sfile, "w") as f:
         for (nr, nt, nc, d) in shapes:
             f.write(json.dumps({"nr": nr, "nt": nt, "nc": nc, "dir": d}) + "\n")
-    open(cfg, "w").write('SPECIFICATION Spec\nCONSTANTS\n  NrSet = {}\n  NtSet = {}\n  Ops = {%s}\n  EmitTables = TRUE\n  FIXED = {"F19"}\n'
+    open(cfg, "w").write('SPECIFICATION Spec\nCONSTANTS\n  NrSet = {}\n  NtSet = {}\n  Ops = {%s}\n  EmitTables = TRUE\n  FIXED = {"F19", "F21"}\n'
                          'INVARIANTS EpochDisjoint AllRadialOnce AllCirclesOnce Emit\n' % ", ".join('"%s"' % o for o in ZEBRA_OPS))
     r = vlib.tlc("ZebraSchedule", cfg, heap="8g", tag="zebraemit", timeout=1500, env={"ZSHAPES": sfile}, workers=8)
     rep.add_tlc(r, "ZebraSchedule.tla intended tables for %d shapes x %d operators" % (len(shapes), len(ZEBRA_OPS)))
